@@ -40,6 +40,10 @@ def decode_value(v):
         return None
     if t == "l":
         return [1, 2]
+    if t == "mv":
+        return memoryview(b"v")
+    if t == "f":
+        return 1.5
     raise ValueError(t)
 
 
@@ -251,7 +255,9 @@ def run_case(case):
 # ---------------------------------------------------------------------------------------------------------
 @st.composite
 def st_value(draw, item, valid_only=False):
-    kinds = ["b"] * 6 + ["ba"] if valid_only else ["b"] * 8 + ["ba", "big", "big", "s", "i", "none", "l"]
+    # memoryview items are NOT generated: the docstring asks for 'a byte-like object', the integer path refuses a memoryview while
+    # the slice path writes its bytes - which of the two is intended is not stated, so neither is asserted
+    kinds = ["b"] * 6 + ["ba"] if valid_only else ["b"] * 8 + ["ba", "big", "big", "s", "i", "none", "l", "f"]
     t = draw(st.sampled_from(kinds))
     if t in ("b", "ba"):
         size = draw(st.sampled_from([item, item, item, max(0, item - 1), 0, 1]))
@@ -266,6 +272,8 @@ def st_value(draw, item, valid_only=False):
         return ["i", draw(st.integers(0, 300))]
     if t == "none":
         return ["none"]
+    if t in ("mv", "f"):
+        return [t]
     return ["l"]
 
 
@@ -304,6 +312,31 @@ def st_op(draw, n, item):
 
 
 @st.composite
+def st_walk(draw, n, item):
+    """a short scan over consecutive indices mixing reads, writes and deletes (access patterns of neighbouring items in one
+    chunk file: read i then write i+1, write i then read i-1, ...)"""
+    start = draw(st.integers(0, n - 1))
+    step = draw(st.sampled_from([1, 1, -1]))
+    length = draw(st.integers(2, 6))
+    out = []
+    i = start
+    for _ in range(length):
+        if not 0 <= i < n:
+            break
+        kind = draw(st.sampled_from(["get", "get", "set", "del", "contains_zero"]))
+        if kind == "get":
+            out.append(["get", i if draw(st.booleans()) else i - n])
+        elif kind == "set":
+            out.append(["set", i, draw(st_value(item, valid_only=True))])
+        elif kind == "del":
+            out.append(["del", i])
+        else:
+            out.append(["contains", (b"\x00" * item).hex()])
+        i += step
+    return out
+
+
+@st.composite
 def st_case(draw, max_ops=25):
     n = draw(st.one_of(st.integers(1, 12), st.integers(1, 40)))
     item = draw(st.integers(1, 9))
@@ -316,7 +349,9 @@ def st_case(draw, max_ops=25):
             size = draw(st.sampled_from([item, item, max(0, item - 1), 0]))
             init.append(draw(st.binary(min_size=size, max_size=size)).hex())
         c["init"] = init
-    c["ops"] = draw(st.lists(st_op(n, item), min_size=1, max_size=max_ops))
+    chunks_ = draw(st.lists(st.one_of(st_op(n, item).map(lambda o: [o]), st_walk(n, item)), min_size=1, max_size=max_ops))
+    ops = [o for ch in chunks_ for o in ch][:max_ops]
+    c["ops"] = ops or [["len"]]
     return c
 
 
